@@ -1,6 +1,6 @@
 from props import _io
 
-META = {"level": "bounded",
+META = {"level": "exploration",
         "trusted_base": ['google.protobuf runtime (message classes generated from /repo/proto by protoc)', 'oracles/io_oracles.py reference codec / parser (independent of /repo)'],
         "assumptions": [],
         "explanation": 'No contract within reach: _parse_type is a recursive closure over token lists built by re.findall with star-unpacking; the engine has no model of regular expressions or of recursion on list slices. Exhaustive bounded check only.'}
